@@ -356,6 +356,10 @@ func genDecoderTrace(r *RNG, g dgen) *Trace {
 			op := Op{K: "Reset"}
 			if r.Chance(0.3) {
 				op.X = 1 // Init again instead of Reset
+				if r.Chance(0.4) {
+					op.X = 2 // Init again with a larger window and the default buffer
+					op.Sel = r.Float()
+				}
 			}
 			if g.wfaults && r.Chance(0.5) {
 				op.WP = genWPlan(r, -1, 8)
